@@ -9,6 +9,26 @@ COMMON_ASSUME = [
 ]
 
 PROPS = {
+  'C12': {
+    'rule': 'cases = (history of 4..60 (quick) / 400 (thorough) manager operations over 1..12 slots: create (body quick/yielder/waiter/spawner; default or custom stack size from the allocator size classes and off-class sizes; parent-first; detach attribute), release, join now/late, tryjoin, timedjoin, detach before/after finish, yields, create+join cycles; every body keeps a canary buffer on its own stack; W in 1..8; schedule); '
+            'non-trivial = a stack or record was released by a different worker than allocated it, or a late join happened after records had been recycled; distinct = hash of (history, schedule, seed)',
+    'assumptions': COMMON_ASSUME + ['ledger fed by guarded alloc/free hooks placed at the four allocation/release functions of records and stacks'],
+    'stages': [
+      {'kind': 'replays', 'name': 'replay', 'variant': 'v0'},
+      {'kind': 'pbt', 'name': 'ledger-v0', 'variant': 'v0', 'prop': 12, 'cases': (900, 12000), 'prog_max': 400, 'sched_max': 512},
+      {'kind': 'pbt', 'name': 'ledger-v2', 'variant': 'v2', 'prop': 12, 'cases': (300, 6000), 'prog_max': 400, 'sched_max': 512},
+    ],
+  },
+  'C13': {
+    'rule': 'cases = same history language as C12 with one third of the cases forced to one worker, tryjoin polling, timedjoin on a virtual clock (step 1ns..0.7s; past/near/far deadlines), detach by call and by attribute, create+join cycles; '
+            'non-trivial = records were recycled AND (a tryjoin reported busy, a timedjoin timed out, a detach (call or attribute) happened, or the case ran on one worker where the bounded-memory equality fresh == max-in-use is asserted); distinct = hash of (history, schedule, seed)',
+    'assumptions': COMMON_ASSUME + ['tryjoin EBUSY is judged exactly only with one worker (with more, the target may legitimately be in the middle of finishing)', 'detach state attribute value 1 (== PTHREAD_CREATE_DETACHED) means detached'],
+    'stages': [
+      {'kind': 'replays', 'name': 'replay', 'variant': 'v0'},
+      {'kind': 'pbt', 'name': 'reap-v0', 'variant': 'v0', 'prop': 13, 'cases': (900, 12000), 'prog_max': 400, 'sched_max': 512},
+      {'kind': 'pbt', 'name': 'reap-v2', 'variant': 'v2', 'prop': 13, 'cases': (300, 6000), 'prog_max': 400, 'sched_max': 512},
+    ],
+  },
   'C06': {
     'rule': 'cases = (N in 1..12 participants, R in 1..6 consecutive rounds on one barrier, generated yields before each arrival, main thread participating or not, W in 1..8, schedule bytes + tail); '
             'non-trivial = the last arriver had to wait for a sleeper that had announced itself but not yet pushed itself on the sleep stack OR a participant entered round k+1 before all of round k had returned; distinct = hash of (program, schedule, seed)',
